@@ -167,6 +167,30 @@ def cone(assumptions, goal):
     return picked
 
 
+def cone_directed(pre, pc, lemmas, goal):
+    """Directed slice: lemmas are definitional (each introduces fresh variables in terms of older ones, in creation
+    order), so a lemma is kept only if a variable it DEFINES is relevant; path conditions and preconditions are kept
+    when they speak only about relevant variables. Any subset of the assumptions is sound for an unsat answer."""
+    seen = set()
+    for a in pre:
+        seen |= free_vars(a)
+    defined = []
+    for l in lemmas:
+        fv = free_vars(l)
+        defined.append(fv - seen)
+        seen |= fv
+    rel = set(free_vars(goal))
+    keep = []
+    for l, d in zip(reversed(lemmas), reversed(defined)):
+        fv = free_vars(l)
+        if (d & rel) or (not d and fv and fv <= rel):
+            keep.append(l)
+            rel |= fv
+    keep.reverse()
+    out = [a for a in pre if free_vars(a) <= rel] + [c for c in pc if free_vars(c) <= rel] + keep
+    return out
+
+
 def run_obligation(prog, ob, tool, seed, cross=True):
     t0 = time.time()
     row = {"name": ob["name"], "engine": "mirsym", "text": ob["text"], "tier": ob.get("tier", "quick"), "kind": "mirsym"}
@@ -230,13 +254,33 @@ def run_obligation(prog, ob, tool, seed, cross=True):
     row["queries"] = len(queries)
     row["functions"] = sorted(it.funcs_used)
     verdict = "ok"
+    # vacuity guard: the precondition together with the path condition and all definitional lemmas (and contract lemmas
+    # of summarised callees) must be satisfiable for at least one returning path; otherwise every query is trivially unsat
+    reach = 0
+    for p in paths:
+        s = z3.Solver()
+        s.set("timeout", 60000)
+        s.add(*pre); s.add(*p["pc"]); s.add(*it.lemmas)
+        rr = s.check()
+        if rr == z3.sat:
+            reach += 1
+            break
+        if rr == z3.unknown:
+            row["reachability_unknown"] = True
+            reach += 1
+            break
+    row["reachability_witness"] = bool(reach)
+    if paths and not reach:
+        row.update({"verdict": "inconclusive", "detail": "vacuous: precondition, path conditions and lemmas are unsatisfiable on every returning path",
+                    "solver_s": round(time.time() - t0, 2)})
+        return row
     sec = {}
     for label, pc, cond in queries:
         # cone of influence: first decide the query with only those assumptions that (transitively) share a variable with
         # the negated goal; dropping assumptions can only turn unsat into sat, so an unsat answer of the slice is an unsat
         # answer of the full query, and anything else is decided again on the full set
         allasm = list(pre) + list(pc) + list(it.lemmas)
-        sl = cone(allasm, z3.Not(cond))
+        sl = cone_directed(list(pre), list(pc), list(it.lemmas), z3.Not(cond))
         r = None
         if len(sl) < len(allasm):
             s = z3.Solver()
@@ -255,7 +299,15 @@ def run_obligation(prog, ob, tool, seed, cross=True):
         if r == z3.unsat:
             n_np = sum(1 for k in sec if k.startswith("no-panic"))
             # second opinion on every post-condition query and on the first few panic-freedom queries (they are near-identical)
-            if cross and ob.get("cross", True) and (not label.startswith("no-panic") or n_np < 3):
+            cls = re.sub(r"\d+", "#", label)
+            n_post = sum(1 for k in sec if re.sub(r"\d+", "#", k) == cls)
+            # obligations made of many structurally identical row queries (12 rows x 2 clauses) may cap the number of
+            # cross-checked post-condition queries per label class (`cross_sample`; digits in labels ignored); the rest are decided by the primary solver alone and
+            # counted in `single_solver_queries`
+            capped = ob.get("cross_sample") is not None and not label.startswith("no-panic") and n_post >= ob["cross_sample"]
+            if capped:
+                row.setdefault("single_solver_queries", []).append(label)
+            if not capped and cross and ob.get("cross", True) and (not label.startswith("no-panic") or n_np < 3):
                 so = second_opinion(s.to_smt2().replace("(check-sat)", ""), timeout=ob.get("cross_timeout", CROSS_TIMEOUT))
                 sec[label] = so
                 if "sat" in so.values() or "error" in so.values():
